@@ -27,7 +27,7 @@ template<class S,class Tg> void c06_adj_compose(hx::Rec<S>& R){
 // F(s) = s*ljac(s t) satisfies F'(s) = Adj(exp(s t)); at s=1: ljac(t) + d/ds ljac(s t) = Adj(exp t)
 template<class S,class Tg> void c06_ljac_ode(hx::Rec<S>& R){
   typedef sym::Jet<S,1> J; typedef typename Tg::template T<J> TJ; typedef typename Tg::template T<S> T;
-  T t=Tg::maket(R,"t",0);
+  T t=MAKET(Tg,R,"t",0);
   typename TJ::DataType tv; for(int i=0;i<Tg::DoF;i++){ J x(t.coeffs()(i)); x.v[0]=t.coeffs()(i); tv(i)=x; }
   TJ tj(tv); auto Jl=tj.ljac();
   auto Adj=t.exp().adj();
@@ -39,7 +39,7 @@ template<class S,class Tg> void c06_ljac_ode(hx::Rec<S>& R){
 // d/ds Adj(exp(s t)) = smallAdj(t) Adj(exp(s t)) at s=1   (Adj(exp t) = exp(ad_t))
 template<class S,class Tg> void c06_adj_ode(hx::Rec<S>& R){
   typedef sym::Jet<S,1> J; typedef typename Tg::template T<J> TJ; typedef typename Tg::template T<S> T;
-  T t=Tg::maket(R,"t",0);
+  T t=MAKET(Tg,R,"t",0);
   typename TJ::DataType tv; for(int i=0;i<Tg::DoF;i++){ J x(t.coeffs()(i)); x.v[0]=t.coeffs()(i); tv(i)=x; }
   TJ tj(tv); auto AJ=tj.exp().adj();
   Mat<S,Tg::DoF> A0,dA; for(int i=0;i<Tg::DoF;i++)for(int j=0;j<Tg::DoF;j++){ A0(i,j)=AJ(i,j).a; dA(i,j)=AJ(i,j).v[0]; }
@@ -47,20 +47,20 @@ template<class S,class Tg> void c06_adj_ode(hx::Rec<S>& R){
 }
 template<class S,class Tg> void c06_rjac(hx::Rec<S>& R){
   typedef typename Tg::template T<S> T;
-  T t=Tg::maket(R,"t",0); T mt(typename T::DataType(-t.coeffs()));
+  T t=MAKET(Tg,R,"t",0); T mt(typename T::DataType(-t.coeffs()));
   hx::eqm(R,"rjac=ljac(-t)", t.rjac(), mt.ljac());
   hx::eqm(R,"unary-", (-t).coeffs(), mt.coeffs());
 }
 template<class S,class Tg> void c06_inverses(hx::Rec<S>& R){
   typedef typename Tg::template T<S> T; typedef typename T::Jacobian Jac;
-  T t=Tg::maket(R,"t",0);
+  T t=MAKET(Tg,R,"t",0);
   assume_rot_below_pi<Tg>(R,t);
   hx::eqm(R,"rjacinv*rjac", (t.rjacinv()*t.rjac()).eval(), Jac(Jac::Identity()));
   hx::eqm(R,"ljacinv*ljac", (t.ljacinv()*t.ljac()).eval(), Jac(Jac::Identity()));
 }
 template<class S,class Tg> void c06_adjexp(hx::Rec<S>& R){
   typedef typename Tg::template T<S> T;
-  T t=Tg::maket(R,"t",0);
+  T t=MAKET(Tg,R,"t",0);
   // Adj(exp t) = ljac * rjacinv   <=>  Adj(exp t) * rjac = ljac
   hx::eqm(R,"adjexp", (t.exp().adj()*t.rjac()).eval(), t.ljac());
 }
